@@ -395,6 +395,27 @@ lp_upolynomial_t* lp_upolynomial_multiply_simple(const ulp_monomial_t* m, const 
     result->monomials[i].degree += m->degree;
   }
 
+  // Products can vanish (m = 0, or zero divisors in Z_m): keep only the non-zero terms
+  size_t j = 0;
+  for (i = 0; i < result->size; ++ i) {
+    if (integer_sgn(lp_Z, &result->monomials[i].coefficient)) {
+      if (j != i) {
+        integer_swap(&result->monomials[j].coefficient, &result->monomials[i].coefficient);
+        result->monomials[j].degree = result->monomials[i].degree;
+      }
+      j ++;
+    }
+  }
+  if (j == 0) {
+    // The zero polynomial is the constant 0
+    result->monomials[0].degree = 0;
+    j = 1;
+  }
+  for (i = j; i < result->size; ++ i) {
+    integer_destruct(&result->monomials[i].coefficient);
+  }
+  result->size = j;
+
   return result;
 }
 
@@ -491,6 +512,10 @@ lp_upolynomial_t* lp_upolynomial_pow(const lp_upolynomial_t* p, long pow) {
     integer_construct_from_int(lp_Z, &result->monomials[0].coefficient, 0);
     integer_pow(p->K, &result->monomials[0].coefficient, &p->monomials[0].coefficient, pow);
     result->monomials[0].degree = p->monomials[0].degree * pow;
+    if (integer_sgn(lp_Z, &result->monomials[0].coefficient) == 0) {
+      // Nilpotent coefficient in Z_m: the result is the constant 0
+      result->monomials[0].degree = 0;
+    }
   } else {
     result = lp_upolynomial_construct_power(p->K, 0, 1);
     lp_upolynomial_t* tmp = lp_upolynomial_construct_copy(p);
